@@ -687,29 +687,44 @@ func (rep *c12Report) judge(hs *handlers, family string, index int, s string, vi
 	}
 	if viaHandlers && hs != nil && (maxRender <= 0 || len(o.errs) <= maxRender) {
 		rep.Handler++
-		// REST
-		if err := safeCall(func() error {
-			rec := httptest.NewRecorder()
-			req := httptest.NewRequest(http.MethodPost, schema.RouteBase, bytes.NewReader([]byte(s)))
-			hs.router.ServeHTTP(rec, req)
-			if rec.Code != http.StatusOK {
-				return fmt.Errorf("status %d", rec.Code)
+		// REST; the body arrives in one piece, one byte per read, or seven bytes per read (what the network does
+		// with a request is not the sender's choice)
+		for _, chunk := range []int{0, 1, 7} {
+			if chunk > 0 && len(s) <= chunk {
+				continue
 			}
-			var resp ketoapi.CheckOPLSyntaxResponse
-			if err := json.Unmarshal(rec.Body.Bytes(), &resp); err != nil {
-				return fmt.Errorf("body is not JSON: %v", err)
-			}
-			if len(resp.Errors) != len(apis) {
-				return fmt.Errorf("%d errors, Parse gave %d", len(resp.Errors), len(apis))
-			}
-			for i := range apis {
-				if resp.Errors[i] == nil || *resp.Errors[i] != *apis[i] {
-					return fmt.Errorf("error %d is %+v, Parse gave %+v", i, resp.Errors[i], apis[i])
+			chunk := chunk
+			if err := safeCall(func() error {
+				rec := httptest.NewRecorder()
+				req := httptest.NewRequest(http.MethodPost, schema.RouteBase, bytes.NewReader([]byte(s)))
+				if chunk > 0 {
+					req = httptest.NewRequest(http.MethodPost, schema.RouteBase, &c12ChunkReader{s: s, n: chunk})
+					req.ContentLength = int64(len(s))
 				}
+				hs.router.ServeHTTP(rec, req)
+				if rec.Code != http.StatusOK {
+					return fmt.Errorf("status %d", rec.Code)
+				}
+				var resp ketoapi.CheckOPLSyntaxResponse
+				if err := json.Unmarshal(rec.Body.Bytes(), &resp); err != nil {
+					return fmt.Errorf("body is not JSON: %v", err)
+				}
+				if len(resp.Errors) != len(apis) {
+					return fmt.Errorf("%d errors, Parse gave %d", len(resp.Errors), len(apis))
+				}
+				for i := range apis {
+					if resp.Errors[i] == nil || *resp.Errors[i] != *apis[i] {
+						return fmt.Errorf("error %d is %+v, Parse gave %+v", i, resp.Errors[i], apis[i])
+					}
+				}
+				return nil
+			}); err != nil {
+				sig, how := "handler:rest-differs", ""
+				if chunk > 0 {
+					sig, how = "handler:rest-differs:body-in-pieces", fmt.Sprintf(" (body delivered %d byte(s) per read)", chunk)
+				}
+				rep.vio(sig, fmt.Sprintf("POST %s%s: %v for %s", schema.RouteBase, how, err, strconv.QuoteToASCII(clip(s, 200))), family, index, s)
 			}
-			return nil
-		}); err != nil {
-			rep.vio("handler:rest-differs", fmt.Sprintf("POST %s: %v for %s", schema.RouteBase, err, strconv.QuoteToASCII(clip(s, 200))), family, index, s)
 		}
 		// gRPC (handler method + the wire form of its response)
 		if err := safeCall(func() error {
@@ -1190,4 +1205,25 @@ func TestC12(t *testing.T) {
 		"frontier":                       total.Frontier,
 		"exhaustive":                     !total.Cut,
 	})
+}
+
+type c12ChunkReader struct {
+	s string
+	n int
+}
+
+func (c *c12ChunkReader) Read(p []byte) (int, error) {
+	if len(c.s) == 0 {
+		return 0, io.EOF
+	}
+	n := c.n
+	if n > len(c.s) {
+		n = len(c.s)
+	}
+	if n > len(p) {
+		n = len(p)
+	}
+	copy(p, c.s[:n])
+	c.s = c.s[n:]
+	return n, nil
 }
